@@ -7,6 +7,7 @@ import (
 	"crypto/sha256"
 	"encoding/json"
 	"fmt"
+	"io"
 	"os"
 	"path/filepath"
 
@@ -56,6 +57,53 @@ func checkC05(c *Ctx) {
 	// (0') the primitives written in Gallina against the libraries age calls; whole files with them
 	c.cryptoCorrespondence(c.vol(40, 600), c.vol(6, 60))
 	c.gallinaFiles(c.vol(3, 30), c.vol(1, 8))
+	// (a0) armored output for EVERY residue of the file length modulo the 48-byte armor line (and the 3-byte
+	// base64 group): plaintext sizes 0..100 and around the chunk boundary, one X25519 recipient
+	{
+		pty := c.freshParty("x25519")
+		var sizes []int
+		for n := 0; n <= 100; n++ {
+			sizes = append(sizes, n)
+		}
+		for d := -52; d <= 52; d += 4 {
+			sizes = append(sizes, chunkSize+d-c.rng.intn(4))
+		}
+		for _, n := range sizes {
+			sc := &scenario{parties: []*party{pty}, plain: c.rng.bytes(n), tape: c.rng.bytes(100), armor: true}
+			file, err, _, _ := encryptImpl(sc)
+			c.Compare("age.Encrypt+armor~Age.encrypt_bytes+Armor.armor_bytes", map[string]interface{}{"plaintext_size": n, "armor": true}, implFileSx(file, err), c.encryptModel(sc))
+			if err == nil {
+				_, out, oc := decryptImpl(bytes.NewReader(file), true, []age.Identity{pty.id})
+				c.Oracle("written-file-decrypts-to-its-plaintext", bytes.Equal(out, sc.plain) && oc == ":eof", "written-file-unreadable", map[string]interface{}{"plaintext_size": n, "armor": true, "file": string(file[:min(len(file), 2000)])},
+					"an armored file the implementation wrote does not decrypt to its plaintext (outcome "+oc+")")
+			}
+			c.count("armored-size-sweep")
+			c.note(fmt.Sprintf("armsweep:%d", n), true)
+		}
+	}
+	// (a1) the plaintext arriving through io.Copy from a plain io.Reader (what cmd/age does): the writer may
+	// take the ReaderFrom path; sizes around multiples of the chunk size
+	for _, n := range []int{0, 1, chunkSize - 1, chunkSize, chunkSize + 1, 2 * chunkSize} {
+		sc := &scenario{parties: []*party{c.freshParty("x25519")}, plain: c.rng.bytes(n), tape: c.rng.bytes(100)}
+		setTape(sc.tape)
+		var buf bytes.Buffer
+		w, err := age.Encrypt(&buf, sc.parties[0].rcpt)
+		if err == nil {
+			_, err = io.Copy(w, struct{ io.Reader }{bytes.NewReader(sc.plain)})
+			if e := w.Close(); err == nil {
+				err = e
+			}
+		}
+		clearTape()
+		c.Compare("age.Encrypt fed by io.Copy~Age.encrypt_bytes", map[string]interface{}{"plaintext_size": n, "fed_by": "io.Copy from a plain io.Reader"}, implFileSx(buf.Bytes(), err), c.encryptModel(sc))
+		if err == nil {
+			_, out, oc := decryptImpl(bytes.NewReader(buf.Bytes()), false, []age.Identity{sc.parties[0].id})
+			c.Oracle("written-file-decrypts-to-its-plaintext", bytes.Equal(out, sc.plain) && oc == ":eof", "written-file-unreadable", map[string]interface{}{"plaintext_size": n, "fed_by": "io.Copy from a plain io.Reader"},
+				"a file the implementation wrote (plaintext fed by io.Copy) does not decrypt to its plaintext (outcome "+oc+")")
+		}
+		c.count("io-copy-fed")
+		c.note(fmt.Sprintf("iocopy:%d", n), true)
+	}
 	// (a) encrypt side
 	n := c.vol(40, 1500)
 	for i := 0; i < n; i++ {
